@@ -269,7 +269,7 @@ func TestC14(t *testing.T) {
 		ev.Note("exhaustive-grid", fmt.Sprintf("all %d (well-formed timeline of <=4 cues on the 0..8 ms grid, d in 1..10 ms, filler) triples, over all shards", idx))
 	})
 
-	rapidCheck(t, "C14/random", tier(20000, 2000000), func(rt *rapid.T) {
+	rapidCheck(t, "C14/random", tier(20000, 8000000), func(rt *rapid.T) {
 		maxT := rapid.SampledFrom([]int64{30 * nsMs, 5000 * nsMs, 3600 * 1000 * nsMs}).Draw(rt, "range")
 		cues := makeWellFormed(genCues(rt, 0, 8, maxT, []string{"a", "b", "c", "...", "~", ""}))
 		if n := len(cues); n > 0 && rapid.IntRange(0, 5).Draw(rt, "fillerlike") == 0 {
